@@ -271,7 +271,7 @@ fn gen_c03(runner: &mut Runner, rng: &mut Rng, args: &Args, extra: &mut BTreeMap
             let header = format!("case scratch {} {}", e.shape_s, v.print());
             let mut scratch = Recorder::new("");
             let hist = {
-                let mut cx = Cx { rec: &mut scratch, prop: Prop::C03, journal: None };
+                let mut cx = Cx { rec: &mut scratch, prop: Prop::C03, journal: None, fail_log: None };
                 let hdr = parse_header(&header);
                 let mut g = RandGen::new(rng.fork(), 6 + rng.below(5) as usize);
                 g.scope_pct = if h % 2 == 0 { 9 } else { 30 };
@@ -315,6 +315,25 @@ fn gen_c03(runner: &mut Runner, rng: &mut Rng, args: &Args, extra: &mut BTreeMap
                     runner.cx.rec.bump("source:swap");
                     runner.run(&header, &mut FixedOps { lines, pos: 0 });
                     nswap += 1;
+                    // element pointers swapped: additionally the variant "the container is emptied / shrunk
+                    // right away and the borrow ends" (the swapped pointer must not be dropped unchecked)
+                    if let (Some(Step::Elem(_)), Some(Step::Elem(_))) = (pa.last(), pb.last()) {
+                        let (ca, cb) = (print_path(&pa[..pa.len() - 1]), print_path(&pb[..pb.len() - 1]));
+                        let mut lines = vec![];
+                        for l in &ops[..k] {
+                            lines.push(format!("A {l}"));
+                            lines.push(format!("B {l}"));
+                        }
+                        lines.push(format!("swap {} {}", print_path(&pa), print_path(&pb)));
+                        lines.push(format!("B clear {cb}"));
+                        lines.push("B end".into());
+                        lines.push(format!("A {} {ca}", if nswap % 2 == 0 { "pop" } else { "remove_range" }).to_string() + if nswap % 2 == 0 { "" } else { " 0 1" });
+                        lines.push("A end".into());
+                        let header = format!("case swc-{}-{h}-{k}-{nswap} swap {} {} {}{}", e.id, e.shape_s, v.print(), vb.print(), lay(nswap % 2 == 1));
+                        runner.cx.rec.bump("source:swap");
+                        runner.run(&header, &mut FixedOps { lines, pos: 0 });
+                        nswap += 1;
+                    }
                 }
             }
         }
@@ -371,6 +390,7 @@ fn main() {
             .status()
             .expect("spawn worker");
         if status.success() {
+            let _ = std::fs::remove_file(args.out.join("failures.jsonl"));
             let _ = std::fs::remove_file(&journal_path);
             if args.prop == "C03" && args.thorough() && args.replay.is_none() {
                 valgrind_batch(&args);
@@ -379,23 +399,32 @@ fn main() {
         }
         let text = std::fs::read_to_string(&journal_path).unwrap_or_default();
         let mut rec = Recorder::new("worker process died while running the case");
+        // failures the worker had recorded before it died
+        let earlier: Vec<serde_json::Value> = std::fs::read_to_string(args.out.join("failures.jsonl"))
+            .unwrap_or_default()
+            .lines()
+            .filter_map(|l| serde_json::from_str(l).ok())
+            .collect();
+        for f in earlier.iter().take(50) {
+            rec.failures.push(hx_common::OracleFailure {
+                class: f["class"].as_str().unwrap_or("?").to_string(),
+                detail: f["detail"].as_str().unwrap_or("").to_string(),
+                replay: f["replay"].as_str().unwrap_or("").to_string(),
+            });
+        }
         let mut lines = text.lines();
         let header = lines.next().filter(|h| h.starts_with("case")).unwrap_or("case ? (rem) -");
         rec.case(header);
         for l in lines {
             rec.op(l, "crash");
         }
-        // interim input class: a swap case in which a set_data_inner op followed the swap
-        let jl: Vec<&str> = text.lines().collect();
-        let swap_pos = jl.iter().position(|l| l.starts_with("swap "));
-        let sdi = header.contains(" swap ")
-            && swap_pos.is_some_and(|p| jl[p + 1..].iter().any(|l| l.get(2..).is_some_and(swap::is_set_data_inner_line)));
-        let class = if sdi { "swap_set_data_inner_unchecked" } else { "crash" };
+        let class = "crash";
         rec.fail(class, &format!("the harness worker died ({status}) while running the last line of this case"));
         rec.mark_nontrivial();
         rec.extra.insert("worker_crashed".into(), serde_json::json!(true));
         rec.finish(&args);
         let _ = std::fs::remove_file(&journal_path);
+        let _ = std::fs::remove_file(args.out.join("failures.jsonl"));
         return;
     }
     hx_common::quiet_panics();
@@ -411,7 +440,8 @@ fn main() {
     let mut rec = Recorder::new(rule);
     rec.exhaustive = Some(false);
     let journal = std::fs::File::create(&journal_path).ok();
-    let mut runner = Runner { reg: &reg, cx: Cx { rec: &mut rec, prop, journal }, cases_by_shape: BTreeMap::new() };
+    let fail_log = std::fs::File::create(args.out.join("failures.jsonl")).ok();
+    let mut runner = Runner { reg: &reg, cx: Cx { rec: &mut rec, prop, journal, fail_log }, cases_by_shape: BTreeMap::new() };
     let thorough = args.thorough();
     let mut extra: BTreeMap<String, serde_json::Value> = BTreeMap::new();
 
